@@ -113,7 +113,7 @@ def replay(ctx, path):
         if ret is not None and data is not None and int(ret) > 0:
             rawref = data[:2 * int(ret)]
     judge = abslean.Judge(ctx)
-    judge.add("replay", hd["geom"], refs, rawref, abslean._alive_pairs(sl, lines, hd["start"]))
+    judge.add("replay", hd["geom"], refs, rawref, abslean.joined_pairs(script, [l for l in lines if l.strip()] if "chunkall" in script else lines, hd["start"]))
     v = judge.run(workers=1)["replay"]
     if hd["clause"]:
         print("replay: recorded by the check: " + hd["clause"])
